@@ -46,6 +46,7 @@ SPECS = {
         + [{"entry": "vh_c19_array", "label": "vh_c19_array.r%d.n%d.k%d" % (r, n, k), "fix": {"rank": r, "ndims": n, "kind#0": k}} for r in range(2) for n in range(3) for k in range(4) if not (r == 0 and n == 0 and k > 0)]
         + [{"entry": "vh_c19_tags", "label": "vh_c19_tags.m%d.n%d.d%d" % (m, n, u), "fix": {"multi": m, "ntagunits": n, "dimunit#0": u}} for m in range(2) for n in range(3) for u in range(3)]}]},
  "C20": {
+  "technique": "symbolic execution of the real code's LLVM IR (nixsym) over a finite family of histories: every choice is forked and executed on the full stack, the engine's memory-safety queries go to z3; the property data here is concrete, so the solver's share is the feasibility and safety queries",
   "explanation": "Full stack on the HDF5 model: section and source trees of symbolic shape (child counts by fork, names a/b/c re-used at different places) are searched with Section::findSections / File::findSections / Source::findSources / Block::findSources under accept-all, id, name and id-set filters and every depth limit 0..depth+1 plus the unlimited default, from every start node, and compared (elements and order) with a breadth-first traversal computed by the harness from the construction record; parentSource() for every source; referring* back references under symbolic metadata / source assignments (incl. same-named arrays in two blocks); inheritedProperties for all subsets of own and linked property names.",
   "bounds": {"quick": {"depth": "<= 3 levels (one root) / 2 levels (two roots)", "branching": "<= 2", "filters": 4, "depth_limits": "0..4 and default", "start_nodes": "the first two"},
              "thorough": {"depth": "<= 3 levels", "branching": "<= 2", "roots": "1..2", "start_nodes": "all"}},
@@ -57,6 +58,7 @@ SPECS = {
                + [{"entry": "vh_c20_backrefs", "label": "vh_c20_backrefs.m%d.a%d" % (m, a), "fix": {"md#0": m, "md#1": a}} for m in range(3) for a in range(3)]
                + [{"entry": "vh_c20_inherited", "label": "vh_c20_inherited.l%d" % l, "fix": {"link": l}} for l in range(2)]}]},
  "C18": {
+  "technique": "symbolic execution of the real code's LLVM IR (nixsym) over a finite family of histories: every choice is forked and executed on the full stack, the engine's memory-safety queries go to z3; the property data here is concrete, so the solver's share is the feasibility and safety queries",
   "explanation": "Arithmetic: the real util::getSIScaling / isScalable / splitUnit / isSIUnit bodies are executed for every pair of the 21 prefixes (incl. none) x the 31 base units x 5 powers: factor = 10^(power*(exp_a-exp_b)) (relative 1e-12), reciprocity, composition through a third unit, symmetry of scalability, rejection of other base units / powers / non-SI units, and repeatability of the answers within one process. Transparency: on a 4x3 array with a sampled axis in ms and a range axis in uV, tags, and slices, given in s/V, ms/uV, ms/mV and without units (numerically rescaled, binary-exact values) must select the same elements or fail alike, for 7x5 positions, 4x3 extents, absent extents and both RangeMatch modes; wrong base units are refused.",
   "bounds": {"prefix_pairs": "21 x 21", "base_units": "all 31 of util.cpp UNITS (quick: every base unit with one of the powers '', ^2, ^-1, and V, s, Hz, m with all five)", "powers": ["", "^2", "^-1", "^3", "^-3"], "retrieval": "fixed 4x3 array, position/extent menus (binary-exact values)"},
   "outside": ["the unit grammar: which strings are SI units and how they split (boost::regex + locale facets have no tractable encoding; a hand-written matcher of the same expressions stands in)", "compound units", "scaling factors below 1 in retrieval (inexact in binary floating point by nature)", "symbolic positions (C05/C06/C17 decide the glue for all positions)"],
@@ -108,12 +110,14 @@ SPECS = {
      "entries": [{"entry": "vh_c13_append", "label": "vh_c13_append.k%d.k%d" % (a, b), "fix": {"kind#0": a, "kind#1": b}} for a in range(5) for b in range(5)]
                + [{"entry": "vh_c13_modify"}, {"entry": "vh_c13_alias"}]}]},
  "C11": {
+  "technique": "symbolic execution of the real code's LLVM IR (nixsym) over a finite family of histories: every choice is forked and executed on the full stack, the engine's memory-safety queries go to z3; the property data here is concrete, so the solver's share is the feasibility and safety queries",
   "explanation": "Full stack on the HDF5 model's identifier table: with handles to every entity kind (and copies, a dimension, a DataView) alive or dropped, close() must leave zero open HDF5 identifiers of the file, isOpen() false, a second close a no-op; each of 16 uses of a stale handle must throw without touching or re-opening the file; the path can be truncated and reused afterwards.",
   "bounds": {"live_handles": "all of harness/world.hpp + dimension + DataView, or none; 3 or 70 arrays plus half as many sections held in vectors", "stale_uses": 16},
   "outside": ["completeness of bytes on disk after flush/close, reopen after SIGKILL: crash points inside libhdf5/OS cannot be encoded (not applicable part)", "other processes"],
   "assumptions": ["libhdf5 replaced by h5model (identifier reference counts, weak file close degree)"],
   "harnesses": [{"file": "C11_close.cpp", "entries": [{"entry": "vh_c11_close", "label": "vh_c11_close.d%d" % d, "fix": {"drop": d}} for d in range(2)] + [{"entry": "vh_c11_many", "label": "vh_c11_many.m%d" % m, "fix": {"many": m}} for m in range(2)]}]},
  "C12": {
+  "technique": "symbolic execution of the real code's LLVM IR (nixsym) with z3; dependence of ids on the entropy source decided as a differential over fixed draws (symbolic draw: no verdict within budget)",
   "explanation": "K: the real util::createId (boost mt19937 seeded from time(), basic_random_generator, uuids::to_string) executed in the engine: first three ids well-formed version-4 UUIDs and distinct. S: in the world file every entity id and the file id is well formed; across 17 operations (re-create by name, modify, replace, delete+create, reopen) no surviving entity's id changes, new entities get fresh ids, forceId changes only the file id.",
   "bounds": {"operations": 17, "ids_checked": "all entities of harness/world.hpp", "createId": "first 3 calls, time() concrete"},
   "outside": ["absence of collisions between independently seeded generators / other processes (probabilistic; the generator is seeded with time(0) only: see DESIGN.md)", "all 2^128 raw values of to_string"],
@@ -125,6 +129,7 @@ SPECS = {
         {"entry": "vh_c12_entropy", "label": "vh_c12_entropy.draw2", "no_replace": ["createId"], "fix": {"entropy": 65536}, "distinct_trace": "id"},
         {"entry": "vh_c12_stable"}]}]},
  "C09": {
+  "technique": "symbolic execution of the real code's LLVM IR (nixsym) over a finite family of histories: every choice is forked and executed on the full stack, the engine's memory-safety queries go to z3; the property data here is concrete, so the solver's share is the feasibility and safety queries",
   "explanation": "Full stack on the HDF5 model, which counts every mutation of a file and enforces the access intent: a library-produced file is opened ReadOnly, read through every getter, each of 40 mutating API calls is attempted, the file is closed - the mutation counter must never move and every call must throw; ReadWrite preserves the observation; Overwrite yields an empty valid file; absent path / plain HDF5 file / files that are not HDF5 at all (empty or arbitrary bytes) are refused and left untouched; the real FileHDF5::fileExists runs over a source-level std::ifstream stand-in (rt/vrt_fstream.hpp). Header defects (format, version, id) are decided in C10.",
   "bounds": {"mutating_calls": 40, "file": "harness/world.hpp", "modes": 3},
   "outside": ["'not a single byte changes' on a real file: that is libhdf5 honouring H5F_ACC_RDONLY", "non-HDF5 files", "compression defaults (recorded only)"],
@@ -132,18 +137,21 @@ SPECS = {
   "harnesses": [{"file": "C09_modes.cpp", "entries": [{"entry": "vh_c09_readonly", "label": "vh_c09_readonly.op%d" % o, "fix": {"op": o}} for o in range(40)]
         + [{"entry": "vh_c09_readwrite_overwrite", "label": "vh_c09_readwrite_overwrite.c%d" % c, "fix": {"case": c}} for c in range(5)]}]},
  "C04": {
+  "technique": "symbolic execution of the real code's LLVM IR (nixsym) over a finite family of histories: every choice is forked and executed on the full stack, the engine's memory-safety queries go to z3; the property data here is concrete, so the solver's share is the feasibility and safety queries",
   "explanation": "Full stack on the HDF5 model: in the fully linked world file one of 22 entities (every kind, including link targets with several holders and subtree roots) is deleted by name, by id or by handle; every entity is then re-collected through the public getters and compared with the pre-state: deleted set unreachable, survivors' attributes/data identical, their link lists equal to the old ones minus links into the deleted set, also after reopen.",
   "bounds": {"victims": 22, "ways": ["name", "id", "handle"], "graph": "harness/world.hpp (one target linked from up to 3 holders; source/section subtrees of depth 2)"},
   "outside": ["other link graphs", "links created after a reopen", "data-frame dimensions as holders"],
   "assumptions": ["libhdf5 replaced by h5model (hard-link counts, H5Iget_name semantics as validated by nix's test-suite)"],
   "harnesses": [{"file": "C04_delete.cpp", "entries": [{"entry": "vh_c04_delete", "label": "vh_c04_delete.v%d" % v, "fix": {"victim": v}} for v in range(22)]}]},
  "C08": {
+  "technique": "symbolic execution of the real code's LLVM IR (nixsym) over a finite family of histories: every choice is forked and executed on the full stack, the engine's memory-safety queries go to z3; the property data here is concrete, so the solver's share is the feasibility and safety queries",
   "explanation": "Full stack on the HDF5 model: on a fully linked file one call from a menu of 51 calls the API must reject (each class of invalid argument the property names) is attempted; if it throws, the complete observation of the file (every public getter, data included) must equal the observation taken before the call, also after close+reopen.",
   "bounds": {"rejected_call_menu": 51, "file_state": "the fixed fully linked world of harness/world.hpp", "prefix_history": 0},
   "outside": ["file states other than the world file (the front-end argument checks are state-independent; back-end ones are exercised on this state)", "rejections caused by libhdf5 I/O errors"],
   "assumptions": ["libhdf5 replaced by h5model", "unit grammar (boost::regex) replaced by a hand-written matcher of the same expressions"],
   "harnesses": [{"file": "C08_reject.cpp", "entries": [{"entry": e, "label": "%s.op%d" % (e, o), "fix": {"op": o}} for e in ("vh_c08_reject", "vh_c08_reject_reopen") for o in range(51)]}]},
  "C02": {
+  "technique": "symbolic execution of the real code's LLVM IR (nixsym) over a finite family of histories: every choice is forked and executed on the full stack, the engine's memory-safety queries go to z3; the property data here is concrete, so the solver's share is the feasibility and safety queries",
   "explanation": "Full stack on the HDF5 model: a fully linked file (blocks, arrays with every dimension kind, data frame, tag, multi-tag, features, group, source and section trees, properties, metadata/section links) is mutated by a bounded history from a 43-entry menu (incl. alternating use of two handles to the same entity); handles held since creation must agree with freshly fetched ones with symbolic payloads, observed through every public getter, closed, reopened (ReadOnly and ReadWrite) and observed again; the two observations must be byte-identical.",
   "bounds": {"quick": {"history_steps": 1, "menu": 43, "payload": "symbolic doubles"}, "thorough": {"history_steps": 2, "intermediate_reopen": True}},
   "outside": ["that libhdf5 persists what it was given (bytes on disk, other processes)", "histories longer than the bound", "nesting depth > 4"],
@@ -182,7 +190,7 @@ SPECS = {
                                            "thorough": ["-DVH_RANGE_MAXTICKS=3", "-DVH_SET_MAXLABELS=3", "-DVH_IMAX=%d" % tmax, "-DVH_INTERVAL=%s" % iv, "-DVH_OFFSET=%s" % off]},
       "tiers": tiers,
       "entries": [{"entry": "vh_c07_sampled_roundtrip", "label": "vh_c07_sampled_roundtrip.%s.m%d" % (tag, m), "fix": {"match": m}, "limits": {"quick": {"timeout": 900, "assert_ms": 600000}, "thorough": {"timeout": 3000, "assert_ms": 2400000}}} for m in range(5)]}
-     for (tag, iv, off, qmax, tmax, tiers) in (("iv0.1", "0.1", "0.0", 255, 10000, ["quick", "thorough"]), ("iv0.5o-1", "0.5", "-1.0", 255, 10000, ["quick", "thorough"]),
+     for (tag, iv, off, qmax, tmax, tiers) in (("iv0.1", "0.1", "0.0", 127, 10000, ["quick", "thorough"]), ("iv0.5o-1", "0.5", "-1.0", 255, 10000, ["quick", "thorough"]),
                                               ("iv0.001", "0.001", "0.0", 255, 10000, ["thorough"]), ("iv1_3", "(1.0/3.0)", "0.0", 255, 10000, ["thorough"]),
                                               ("iv3o100.3", "3.0", "100.3", 255, 10000, ["thorough"]), ("iv0.25o0.05", "0.25", "0.05", 255, 10000, ["thorough"]))
   ]},
